@@ -18,7 +18,8 @@ EXPLANATION = (
     "function stores the new configuration on its success path and the listener takes a load_full() snapshot per "
     "accepted connection inside the accept loop.")
 EXPLANATION_ADDED = 'R3 also requires the client-certificate trust store to be loaded from client_ca_path; (R6) a failed reload keeps the previous configuration.'
-EXPLANATION = EXPLANATION + " Added while testing against seeded changes: " + EXPLANATION_ADDED
+EXPLANATION_ADDED2 = ' (R7) a reload stores exactly the freshly built configuration and every reload function publishes it.'
+EXPLANATION = EXPLANATION + " Added while testing against seeded changes: " + EXPLANATION_ADDED + EXPLANATION_ADDED2
 ASSUMPTIONS = ["rustls / native-tls perform chain and name validation as documented for the configured verifier"]
 NOT_DECIDED = "rustls' own certificate validation; behaviour of established connections across a swap"
 QUICK_CONFIGS = ["default"]
